@@ -26,6 +26,7 @@ func buildProperties() []Property {
 			NotDecided: "completeness and exactly-once enumeration in every mode - behavioural.",
 			Rules: []RuleDef{
 				{"R-TEXT-RUNE", 8, ruleTextRune},
+				{"R-INT-WRAP", 3, ruleIntWrap},
 			},
 		},
 		{
@@ -48,6 +49,7 @@ func buildProperties() []Property {
 				{"R-STABLE-KEYSORT", 1, ruleStableKeysort},
 				{"R-SET-ORDER", 4, ruleSetOrder},
 				{"R-COMPOUND-ORDER", 5, ruleCompoundOrder},
+				{"R-INT-WRAP", 3, ruleIntWrap},
 				{"R-COMPOUND-UNIFORM", 7, ruleCompoundUniform},
 			},
 		},
@@ -60,6 +62,7 @@ func buildProperties() []Property {
 				{"R-GLOBAL-READS", 3, only("R-GLOBAL-READS", ruleGlobalState)},
 				{"R-GLOBAL-TABLES", 4, only("R-GLOBAL-TABLES", ruleGlobalState)},
 				{"R-GLOBAL-ESCAPE", 10, ruleGlobalEscape},
+				{"R-INSERT-RECHECK", 1, ruleInsertRecheck},
 				{"R-ENV-IMMUT", 9, ruleEnvImmut},
 			},
 		},
@@ -210,6 +213,7 @@ func buildProperties() []Property {
 				{"R-SHIFT-GUARD", 2, ruleShiftGuard},
 				{"R-FTOI-RANGE", 4, ruleFtoIRange},
 				{"R-DISPATCH-FAMILY", 30, ruleDispatchFamily},
+				{"R-INT-WRAP", 3, ruleIntWrap},
 			},
 		},
 		{
